@@ -194,7 +194,8 @@ class P(Prop):
         (`LINESTRING(x y z, ...)`, BD TOPO-like data, hand-built networks with `ENUCoords(x, y, z)`) and GPS tracks with altitudes.
           hill    : every vertex has its own altitude (one per planimetric position, so that shared end vertices agree)
           plateau : every vertex has the SAME non-zero altitude (flat, but not at 0)
-          mixed   : hill, but some edges stay 2D (a file that mixes `x y` and `x y z` lines; their altitude is 0)
+          mixed   : hill, but some edges stay 2D (a file that mixes `x y` and `x y z` lines; their altitude is 0), and some
+                    `x y z` lines have `x y` vertices
           obs     : the network stays 2D, only the observations carry an altitude
         the observations of the other modes carry an altitude half of the time; a node table (`via` = table) gets altitudes too
         (its own: nodes are separate objects). Nothing planimetric is changed."""
@@ -212,6 +213,8 @@ class P(Prop):
                     edges.append(e)
                     continue
                 g = [[q[0], q[1], plateau if mode == "plateau" else zmap.setdefault(xyt(q), zval())] for q in e["g"]]
+                if mode == "mixed" and rng.random() < 0.3:
+                    g = [q[:2] if rng.random() < 0.3 else q for q in g]           # `x y` vertices inside an `x y z` line
                 edges.append(dict(e, g=g))
             case = dict(case, edges=edges)
             if case.get("nodes"):
@@ -822,7 +825,7 @@ class P(Prop):
         tab = (case.get("nodes") or {}) if case.get("via") == "table" else {}
         z3 = has_z(case)          # altitudes somewhere: the 3D model (command net3), every point is x,y,z
         pt2 = lambda p: "%s,%s" % (fbits(float(p[0])), fbits(float(p[1])))
-        pt = (lambda p: "%s,%s,%s" % (fbits(float(p[0])), fbits(float(p[1])), fbits(zof(p)))) if z3 else pt2
+        pt = (lambda p: ",".join(fbits(float(v)) for v in p)) if z3 else pt2          # a vertex given as x,y in a 3D case: wktVertex
         es = []
         for e in case["edges"]:
             ca = tab.get(str(e["s"]), e["g"][0])
@@ -857,7 +860,7 @@ class P(Prop):
             self.impl(case)
         S = self.as_session(case)
         z3 = has_z(case)
-        pt = (lambda p: "%s,%s,%s" % (fbits(float(p[0])), fbits(float(p[1])), fbits(zof(p)))) if z3 else (lambda p: "%s,%s" % (fbits(p[0]), fbits(p[1])))
+        pt = (lambda p: ",".join(fbits(float(v)) for v in p)) if z3 else (lambda p: "%s,%s" % (fbits(p[0]), fbits(p[1])))
         es = "|".join(";".join(pt(p) for p in e["g"]) for e in case["edges"])
         lines = [self.net_request(case, self._cache[key][1])]
         for ci, t in self._cache[key][0]:
